@@ -2,6 +2,7 @@ package openapi
 
 import (
 	"github.com/jsightapi/jsight-api-core/catalog"
+	"github.com/jsightapi/jsight-api-core/notation"
 )
 
 type ComponentsSchemas map[string]schemaObject
@@ -13,6 +14,13 @@ func newSchemas(tt *catalog.UserTypes) ComponentsSchemas {
 
 	ss := make(ComponentsSchemas, tt.Len())
 	_ = tt.Each(func(name string, ut *catalog.UserType) error {
+		if ut.Schema.Notation() == notation.SchemaNotationEmpty {
+			// JSight's pseudo-notation empty means the absence of a content, it
+			// cannot be represented by OA's Schema Object. Such a type cannot be
+			// referenced from other schemas, so it is safe to omit it.
+			return nil
+		}
+
 		typeSchemaObject := schemaObjectFromExchangeSchema(ut.Schema)
 		typeSchemaObject.SetDescription(ut.Annotation)
 
